@@ -1848,6 +1848,8 @@ def make_data(
     ),
     # equality constraints
     "eq_active": wp.array(np.tile(mjm.eq_active0.astype(bool), (nworld, 1)), shape=(nworld, mjm.neq), dtype=bool),
+    # delay/interval history buffers: MuJoCo's initial buffers (cursor, past sample times), not zeros
+    "history": wp.array(np.tile(mjd.history, (nworld, 1)), shape=(nworld, mjm.nhistory), dtype=float),
     # island arrays
     "nisland": None,
     "tree_island": None,
